@@ -7,6 +7,7 @@ import (
 	"fmt"
 	"io"
 	"sync"
+	"sync/atomic"
 	"time"
 
 	"github.com/gopcua/opcua/ua"
@@ -44,6 +45,7 @@ type rec struct {
 	// C20: delivered bodies are kept together with a deep snapshot taken at delivery
 	keep  bool
 	kept  []keptMsg
+	opnEnds atomic.Int64 // completed server-side OPN handlings of this channel (hook srv.opn.end)
 	// role flags
 	isRecv, isSend bool
 	viaDisp        bool // receiver is a client channel: returns are seen at disp.pop
@@ -52,6 +54,7 @@ type rec struct {
 func newRec() *rec { r := &rec{}; r.cond = sync.NewCond(&r.mu); return r }
 
 var reg sync.Map // *uasc.SecureChannel -> *rec
+
 
 func kvGet(kv []any, key string) any {
 	for i := 0; i+1 < len(kv); i += 2 {
@@ -111,11 +114,16 @@ func installHook() {
 				r.keepBody(kvGet(kv, "body"))
 			}
 			r.add(e)
+		case "srv.opn.end":
+			r.opnEnds.Add(1)
 		case "expire.run":
 			noteExpireRun(s, u32(kvGet(kv, "tok")))
 		case "chunk.write":
 			if !r.isSend {
 				return
+			}
+			if m, ok := kvGet(kv, "msg").(*uasc.Message); ok && m != nil && m.MessageHeader != nil && m.Header != nil && m.Header.MessageType == "OPN" {
+				return // the OPN chunk of a renewal is not part of the base stream
 			}
 			ln, _ := kvGet(kv, "len").(int)
 			r.mu.Lock()
